@@ -4,7 +4,7 @@ import MosnVerif.Lemmas.PoolSpec
 Invariant of the multiplex pool model (`Model/PoolMux.lean`), inductive over every operation.
 -/
 namespace MosnVerif.Model.PoolMux
-open MosnVerif.Gen.PoolMux MosnVerif.Gen.Pool
+open MosnVerif.Gen.PoolMux MosnVerif.Gen.PoolMuxMoves MosnVerif.Gen.Pool
 open MosnVerif.Model.Pool (Stream Dial countLive)
 
 /-! ### counting streams -/
@@ -127,10 +127,33 @@ theorem iter_decrease (m : Nat) (k : Nat) (x : Int) :
     · have : ¬ ((m : Int) = 0) := by omega
       simp [hm, this]; omega
 
+/-! ### the regenerated movements, as they are in the code that exists -/
+
+theorem destroyMoves_eq : destroyMoves = { reqInc := 0, reqDec := 1, host := -1, cluster := -1, listens := false } := rfl
+
+theorem movesN_destroy (n : Nat) (s : State) :
+    movesN destroyMoves n s =
+      { s with reqCur := iter (resDecrease s.maxReq) n s.reqCur, actHost := s.actHost - n, actCluster := s.actCluster - n } := by
+  rw [destroyMoves_eq]
+  simp only [movesN, iter]
+  have e : ((n : Int) * -1) = -(n : Int) := by omega
+  rw [e]; rfl
+
+theorem movesN_lease (s : State) :
+    movesN (muxLeaseMoves false) 1 s =
+      { s with reqCur := resIncrease s.maxReq s.reqCur, actHost := s.actHost + 1, actCluster := s.actCluster + 1 } := by
+  simp [movesN, iter, muxLeaseMoves]
+
+/-- the one-way path of `NewStream` moves nothing -/
+theorem movesN_oneway (s : State) : movesN (muxLeaseMoves true) 1 s = s := by
+  simp [movesN, iter, muxLeaseMoves]
+
 /-! ### the invariant -/
 
 structure Core (s : State) : Prop where
   req : s.reqCur = if s.maxReq = 0 then 0 else (s.ext : Int) + (s.liveCount : Int)
+  /-- both upstream request_active gauges count the requests in flight -/
+  act : s.actHost = (s.liveCount : Int) ∧ s.actCluster = (s.liveCount : Int)
   liveOk : ∀ i, i < s.nStreams → (s.stream i).live = true → (s.stream i).conn < s.nClients ∧ (s.client (s.stream i).conn).netOpen = true
   slotOk : ∀ i c, s.slot i = .real c → c < s.nClients ∧ (s.client c).slot = i ∧
     ((s.client c).state = muxConnected → (s.client c).netOpen = true)
@@ -154,7 +177,8 @@ structure Inv (s : State) : Prop where
   drain : ∀ c, Drain s c
 
 theorem inv_init (maxConn maxReq : Nat) : Inv (init maxConn maxReq) := by
-  refine ⟨⟨?_, ?_, ?_, ?_, ?_, ?_, ?_, ?_⟩, ?_⟩
+  refine ⟨⟨?_, ?_, ?_, ?_, ?_, ?_, ?_, ?_, ?_⟩, ?_⟩
+  · simp [init, State.liveCount, countLive]
   · simp [init, State.liveCount, countLive]
   · intro i hi; simp [init] at hi
   · intro i c h; simp [init] at h
@@ -196,10 +220,11 @@ theorem closedSt_eq (s : State) (c : Nat) (r : String) :
         slot := fun k => if emptied s c = true ∧ k = (s.client c).slot then .empty else s.slot k,
         client := fun k => if k = c then { s.client c with netOpen := false } else s.client k,
         stream := killed s.stream c r,
-        reqCur := iter (resDecrease s.maxReq) (s.activeOn c) s.reqCur } := by
+        reqCur := iter (resDecrease s.maxReq) (s.activeOn c) s.reqCur,
+        actHost := s.actHost - (s.activeOn c : Nat), actCluster := s.actCluster - (s.activeOn c : Nat) } := by
   unfold closedSt
   rw [poolOnClose_eq]
-  simp only [killOn, State.updC, State.activeOn, emptied, if_pos rfl, if_true]
+  simp only [killOn, movesN_destroy, State.updC, State.activeOn, emptied, if_pos rfl, if_true]
   rfl
 
 theorem netClose_eq (s : State) (c : Nat) (r : String) (h1 : c < s.nClients) (h2 : (s.client c).netOpen = true) :
@@ -212,12 +237,17 @@ theorem inv_netClose (s : State) (hc : Core s) (c : Nat) (r : String) (hd : ∀ 
   by_cases hh : c < s.nClients ∧ (s.client c).netOpen = true
   · obtain ⟨hcn, hopen⟩ := hh
     rw [netClose_eq s c r hcn hopen, closedSt_eq]
-    refine ⟨⟨?_, ?_, ?_, ?_, ?_, ?_, ?_, ?_⟩, ?_⟩
+    refine ⟨⟨?_, ?_, ?_, ?_, ?_, ?_, ?_, ?_, ?_⟩, ?_⟩
     · -- req
       have hk := countLive_killed s.stream c r s.nStreams
       have hreq := hc.req
       simp only [State.liveCount, State.activeOn, iter_decrease] at hreq ⊢
       rw [hreq]; split <;> omega
+    · -- act
+      have hk := countLive_killed s.stream c r s.nStreams
+      have ha := hc.act
+      simp only [State.liveCount, State.activeOn] at ha ⊢
+      omega
     · -- liveOk
       intro i hi hl
       simp only at hi hl ⊢
@@ -338,16 +368,20 @@ theorem countOn_lease (f : Nat → Stream) (n c c' : Nat) :
 theorem inv_lease (s : State) (h : Inv s) (c : Nat) (hc : c < s.nClients) (ho : (s.client c).netOpen = true) :
     Inv (lease s c) := by
   have hcore := h.core
-  refine ⟨⟨?_, ?_, ?_, ?_, ?_, ?_, ?_, ?_⟩, ?_⟩
+  rw [lease, movesN_lease]
+  refine ⟨⟨?_, ?_, ?_, ?_, ?_, ?_, ?_, ?_, ?_⟩, ?_⟩
   · have := hcore.req
-    simp only [lease, State.liveCount, countLive_lease, resIncrease] at this ⊢
+    simp only [State.liveCount, countLive_lease, resIncrease] at this ⊢
     rw [this]
     by_cases hm : s.maxReq = 0
     · simp [hm]
     · have : ¬ ((s.maxReq : Int) = 0) := by omega
       simp [hm, this]; omega
+  · have := hcore.act
+    simp only [State.liveCount, countLive_lease] at this ⊢
+    omega
   · intro i hi hl
-    simp only [lease] at hi hl ⊢
+    simp only at hi hl ⊢
     by_cases hin : i = s.nStreams
     · subst hin; simp only [if_pos rfl]; exact ⟨hc, ho⟩
     · simp only [if_neg hin] at hl ⊢
@@ -358,7 +392,7 @@ theorem inv_lease (s : State) (h : Inv s) (c : Nat) (hc : c < s.nClients) (ho : 
   · exact hcore.gw
   · exact hcore.st
   · intro i hi
-    simp only [lease] at hi ⊢
+    simp only at hi ⊢
     by_cases hin : i = s.nStreams
     · subst hin; simp only [if_pos rfl, fresh_live]
       exact ⟨fun _ => ⟨rfl, rfl, rfl⟩, fun h => by cases h⟩
@@ -366,7 +400,7 @@ theorem inv_lease (s : State) (h : Inv s) (c : Nat) (hc : c < s.nClients) (ho : 
   · intro c' hc' ho' hg
     have := h.drain c' hc' ho' hg
     have hle := countOn_lease s.stream s.nStreams c c'
-    simp only [State.activeOn, lease] at this ⊢
+    simp only [State.activeOn] at this ⊢
     omega
 
 theorem inv_newStream (s : State) (h : Inv s) (k : Nat) : Inv (newStream s k).1 := by
@@ -388,6 +422,22 @@ theorem inv_newStream (s : State) (h : Inv s) (k : Nat) : Inv (newStream s k).1 
           simp only [muxUnusable, decide_eq_true_eq, ne_eq, Decidable.not_not] at hu; exact hu
         exact inv_lease s h c h1 (h3 hst)
 
+/-- **a one-way request holds nothing**: whatever its outcome, `NewStream(ctx, nil)` leaves the whole state as it was
+(with the regenerated movements of the `receiver == nil` path) -/
+theorem newStreamOneway_state (s : State) (k : Nat) : (newStreamOneway s k).1 = s := by
+  unfold newStreamOneway
+  simp only
+  split
+  · rfl
+  split
+  · rfl
+  · rfl
+  · split
+    · rfl
+    · split
+      · rfl
+      · exact movesN_oneway s
+
 /-! ### a stream ends -/
 
 theorem inv_endStream (s : State) (h : Inv s) (i : Nat) (hi : i < s.nStreams) (hl : (s.stream i).live = true)
@@ -408,10 +458,12 @@ theorem inv_endStream (s : State) (h : Inv s) (i : Nat) (hi : i < s.nStreams) (h
   have hlive := countLive_kill_one s.stream g i s.nStreams hi hl hgi hoth
   let c := (s.stream i).conn
   have hon := countOn_kill_one s.stream g i s.nStreams c hi hl hgi rfl hoth
-  let s2 : State := { s with stream := g, reqCur := resDecrease s.maxReq s.reqCur }
+  let s2 : State := { s with stream := g, reqCur := resDecrease s.maxReq s.reqCur, actHost := s.actHost - 1, actCluster := s.actCluster - 1 }
+  have hs2 : movesN destroyMoves 1 { s with stream := g } = s2 := by
+    rw [movesN_destroy]; simp [s2, iter]
   have hfresh := (hcore.once i hi).1 hl
   have hcore2 : Core s2 := by
-    refine ⟨?_, ?_, hcore.slotOk, hcore.openOk, hcore.slotRange, hcore.gw, hcore.st, ?_⟩
+    refine ⟨?_, ?_, ?_, hcore.slotOk, hcore.openOk, hcore.slotRange, hcore.gw, hcore.st, ?_⟩
     · have := hcore.req
       simp only [State.liveCount, resDecrease, s2] at this ⊢
       rw [this]
@@ -419,6 +471,9 @@ theorem inv_endStream (s : State) (h : Inv s) (i : Nat) (hi : i < s.nStreams) (h
       · simp [hm]
       · have : ¬ ((s.maxReq : Int) = 0) := by omega
         simp [hm, this]; omega
+    · have := hcore.act
+      simp only [State.liveCount, s2] at this ⊢
+      omega
     · intro k hk hlk
       simp only [s2] at hk hlk ⊢
       by_cases hki : k = i
@@ -442,7 +497,7 @@ theorem inv_endStream (s : State) (h : Inv s) (i : Nat) (hi : i < s.nStreams) (h
     omega
   show Inv (onStreamDestroy { s with stream := g } (s.stream i).conn)
   unfold onStreamDestroy
-  simp only
+  simp only [hs2]
   split
   · exact inv_netClose s2 hcore2 c connLost hdrain2
   · rename_i hcl
@@ -469,7 +524,7 @@ theorem inv_goAway (s : State) (h : Inv s) (c : Nat) (hc : c < s.nClients) (ho :
   have hcl : ∀ k, s1.client k = if k = c then { s.client c with goaway := muxGoAway, state := muxGoAway } else s.client k := by
     intro k; simp [s1, State.updC, muxGoAwaySetsFlag, muxGoAwayState]
   have hcore1 : Core s1 := by
-    refine ⟨hcore.req, ?_, ?_, ?_, hcore.slotRange, ?_, ?_, hcore.once⟩
+    refine ⟨hcore.req, hcore.act, ?_, ?_, ?_, hcore.slotRange, ?_, ?_, hcore.once⟩
     · intro i hi hl
       have ⟨h1, h2⟩ := hcore.liveOk i hi hl
       refine ⟨h1, ?_⟩
@@ -527,7 +582,7 @@ def SlotFree (s : State) (i : Nat) : Prop := ∀ c', s.slot i = .real c' → (s.
 theorem inv_setSlot_nonreal (s : State) (h : Inv s) (i : Nat) (v : SlotV) (hv : ∀ c, v ≠ .real c)
     (hfree : SlotFree s i) : Inv (s.setSlot i v) := by
   have hc := h.core
-  refine ⟨⟨hc.req, hc.liveOk, ?_, ?_, ?_, hc.gw, hc.st, hc.once⟩, h.drain⟩
+  refine ⟨⟨hc.req, hc.act, hc.liveOk, ?_, ?_, ?_, hc.gw, hc.st, hc.once⟩, h.drain⟩
   · intro j c hj
     simp only [State.setSlot] at hj
     split at hj
@@ -553,7 +608,7 @@ theorem inv_updState (s : State) (h : Inv s) (c : Nat) (x : Nat) (hx : x ≠ mux
   have hc := h.core
   have hcl : ∀ k, (s.updC c (fun cl => { cl with state := x })).client k =
       if k = c then { s.client c with state := x } else s.client k := fun k => rfl
-  refine ⟨⟨hc.req, ?_, ?_, ?_, hc.slotRange, ?_, ?_, hc.once⟩, ?_⟩
+  refine ⟨⟨hc.req, hc.act, ?_, ?_, ?_, hc.slotRange, ?_, ?_, hc.once⟩, ?_⟩
   · intro i hi hl
     have ⟨h1, h2⟩ := hc.liveOk i hi hl
     refine ⟨h1, ?_⟩
@@ -606,7 +661,7 @@ theorem inv_withNewClient (s : State) (h : Inv s) (i : Nat) (hi : i < s.nSlots) 
   have hcl : ∀ k, (withNewClient s i).client k = if k = s.nClients then { state := muxFreshState, slot := i } else s.client k :=
     fun k => rfl
   have hsl : ∀ j, (withNewClient s i).slot j = if j = i then .real s.nClients else s.slot j := fun j => rfl
-  refine ⟨⟨hc.req, ?_, ?_, ?_, ?_, ?_, ?_, hc.once⟩, ?_⟩
+  refine ⟨⟨hc.req, hc.act, ?_, ?_, ?_, ?_, ?_, ?_, hc.once⟩, ?_⟩
   · intro k hk hl
     have ⟨h1, h2⟩ := hc.liveOk k hk hl
     refine ⟨Nat.lt_succ_of_lt h1, ?_⟩
@@ -670,10 +725,10 @@ theorem inv_withNewClient (s : State) (h : Inv s) (i : Nat) (hi : i < s.nSlots) 
       exact h.drain c' hlt ho hg
 
 theorem inv_rr (s : State) (h : Inv s) (x : Nat) : Inv { s with rr := x } :=
-  ⟨⟨h.core.req, h.core.liveOk, h.core.slotOk, h.core.openOk, h.core.slotRange, h.core.gw, h.core.st, h.core.once⟩, h.drain⟩
+  ⟨⟨h.core.req, h.core.act, h.core.liveOk, h.core.slotOk, h.core.openOk, h.core.slotRange, h.core.gw, h.core.st, h.core.once⟩, h.drain⟩
 
 theorem inv_shutdown (s : State) (h : Inv s) : Inv { s with shutdown := true } :=
-  ⟨⟨h.core.req, h.core.liveOk, h.core.slotOk, h.core.openOk, h.core.slotRange, h.core.gw, h.core.st, h.core.once⟩, h.drain⟩
+  ⟨⟨h.core.req, h.core.act, h.core.liveOk, h.core.slotOk, h.core.openOk, h.core.slotRange, h.core.gw, h.core.st, h.core.once⟩, h.drain⟩
 
 theorem inv_connect (s : State) (h : Inv s) (i : Nat) (dial : Dial) (hi : i < s.nSlots) (hfree : SlotFree s i) : Inv (connect s i dial) := by
   unfold connect
@@ -766,6 +821,7 @@ theorem inv_step (s : State) (h : Inv s) (op : Op) : Inv (step s op).1 := by
   cases op with
   | checkAndInit slot dial => exact inv_checkAndInit s h slot dial
   | newStream k => exact inv_newStream s h k
+  | newStreamOneway k => rw [show (step s (.newStreamOneway k)).1 = s from newStreamOneway_state s k]; exact h
   | response i =>
     simp only [step]; split
     · rename_i hh; exact inv_endStream s h i hh.1 hh.2 none
@@ -787,7 +843,7 @@ theorem inv_step (s : State) (h : Inv s) (op : Op) : Inv (step s op).1 := by
   | closeAll => exact inv_foldClose _ s h
   | extInc =>
     have hc := h.core
-    refine ⟨⟨?_, hc.liveOk, hc.slotOk, hc.openOk, hc.slotRange, hc.gw, hc.st, hc.once⟩, h.drain⟩
+    refine ⟨⟨?_, hc.act, hc.liveOk, hc.slotOk, hc.openOk, hc.slotRange, hc.gw, hc.st, hc.once⟩, h.drain⟩
     have := hc.req
     simp only [step, resIncrease, State.liveCount] at this ⊢
     rw [this]
@@ -799,7 +855,7 @@ theorem inv_step (s : State) (h : Inv s) (op : Op) : Inv (step s op).1 := by
     simp only [step]; split
     · rename_i hpos
       have hc := h.core
-      refine ⟨⟨?_, hc.liveOk, hc.slotOk, hc.openOk, hc.slotRange, hc.gw, hc.st, hc.once⟩, h.drain⟩
+      refine ⟨⟨?_, hc.act, hc.liveOk, hc.slotOk, hc.openOk, hc.slotRange, hc.gw, hc.st, hc.once⟩, h.drain⟩
       have := hc.req
       simp only [resDecrease, State.liveCount] at this ⊢
       rw [this]
